@@ -244,6 +244,18 @@ def _build_model(case, tmpdir):
     if case.get("reload"):
         model.load_parameters(_decoy(case["params"]))
         model.state["mixing_matrix"] if k >= 1 else None  # derived values of the decoy get cached, as a user inspecting the model would do
+        # ... and trajectories of the decoy get computed through the public API before the real parameters arrive (estimates must follow
+        # the parameters in force, whatever was estimated earlier on the same model object)
+        try:
+            import numpy as np
+            from leaspy.io.outputs import IndividualParameters
+
+            model._is_initialized = True
+            ip = IndividualParameters()
+            ip.add_individual_parameters("warm", {"xi": [0.1], "tau": [70.0], **({"sources": [0.2] * k} if k >= 1 else {})})
+            model.estimate({"warm": [65.0, 75.0]}, ip)
+        except Exception:
+            pass
     model.load_parameters(case["params"])
     model._is_initialized = True  # what BaseModel.load does after load_parameters
     return model
